@@ -123,7 +123,8 @@ class Roles(Job):
 
 
 def jobs(tier):
-    return [Roles()] + make_jobs(Converge, tier, 2, 3) + make_drandom_jobs(Converge, tier)
+    from harness.phase_dispatch import PhaseDispatch
+    return [Roles(), PhaseDispatch()] + make_jobs(Converge, tier, 2, 3) + make_drandom_jobs(Converge, tier)
 
 
 ASSUMPTIONS = [
